@@ -66,7 +66,12 @@ int cv_format_to(var self, int pos, const char* fmt, ...) {
   va_list va; va_start(va, fmt);
   int a = piece_arg[p];
   if (piece_kind[p] == K_INT || piece_kind[p] == K_CHR) { int64_t v = va_arg(va, int64_t); __CPROVER_assert(v == in_i[a], "[C14] an integer / character conversion receives c_int of its argument"); }
-  if (piece_kind[p] == K_FLT) { double v = va_arg(va, double); __CPROVER_assert(v == in_f[a] || (v != v && in_f[a] != in_f[a]), "[C14] a floating conversion receives c_float of its argument"); }
+  if (piece_kind[p] == K_FLT) {
+    int big = 0; for (size_t i = 0; fmt[i] != 0; i++) if (fmt[i] == 'L') big = 1;
+    /* libc reads the C value the specification names: a long double under the L length modifier, a double otherwise */
+    if (big) { long double v = va_arg(va, long double); __CPROVER_assert((double)v == in_f[a] || (v != v && in_f[a] != in_f[a]), "[C14] a floating conversion with the L length modifier receives c_float of its argument as a long double"); }
+    else { double v = va_arg(va, double); __CPROVER_assert(v == in_f[a] || (v != v && in_f[a] != in_f[a]), "[C14] a floating conversion receives c_float of its argument"); }
+  }
   if (piece_kind[p] == K_STR) { char* v = va_arg(va, char*); __CPROVER_assert(v == argstr[a], "[C14] %s receives c_str of its argument"); }
   if (piece_kind[p] == K_PTR) { var v = va_arg(va, var); __CPROVER_assert(v == arg_items[a], "[C14] %p receives the object itself"); }
   va_end(va);
